@@ -543,7 +543,7 @@ Qed.
 Lemma fk_pool_push n t c s : fk s (pool_push n t c s).
 Proof.
   unfold pool_push.
-  set (s1 := if share_of s c then upd_tok t (set_marker false) s else s).
+  set (s1 := if share_of s c then upd_tok t (set_marker None) s else s).
   assert (H1 : fk s s1) by (subst s1; destruct (share_of s c); [apply fk_of_fe, fe_of_fr, fr_upd_tok|apply fk_refl]).
   pose proof (fk_walk_waiters t c (share_of s1 c) (p_waiting (get_tok s1 t)) s1) as H2.
   destruct (walk_waiters t c (share_of s1 c) (p_waiting (get_tok s1 t)) s1) as [[rest moved] s2]. cbn [snd] in H2.
@@ -620,7 +620,7 @@ Qed.
 Lemma G_pool_push ex m0 n t c s : G ex m0 s -> nth_error (copen s) c = Some true -> G ex m0 (pool_push n t c s).
 Proof.
   intros H Ho. unfold pool_push.
-  set (s1 := if share_of s c then upd_tok t (set_marker false) s else s).
+  set (s1 := if share_of s c then upd_tok t (set_marker None) s else s).
   assert (F1 : fr s s1) by (subst s1; destruct (share_of s c); [apply fr_upd_tok|apply fr_refl]).
   assert (H1 : G ex m0 s1) by (eapply G_fr; eauto).
   assert (Ho1 : nth_error (copen s1) c = Some true) by (rewrite (copen_fr _ _ F1); exact Ho).
@@ -648,10 +648,11 @@ Proof.
   - specialize (IH s H). destruct (release_pending ws s). exact IH.
 Qed.
 
-Lemma G_pool_cancel ex m0 t s : G ex m0 s -> G ex m0 (pool_cancel t s).
+Lemma G_pool_cancel ex m0 t rid s : G ex m0 s -> G ex m0 (pool_cancel t rid s).
 Proof.
-  intros H. unfold pool_cancel. destruct (p_marker (get_tok s t)); [|exact H].
-  set (s1 := upd_tok t (set_marker false) s).
+  intros H. unfold pool_cancel. destruct (p_marker (get_tok s t)) as [o|]; [|exact H].
+  destruct (Nat.eqb o rid); [|exact H].
+  set (s1 := upd_tok t (set_marker None) s).
   assert (H1 : G ex m0 s1) by (eapply G_fr; [apply fr_upd_tok|exact H]).
   pose proof (G_release_pending ex m0 (p_waiting (get_tok s1 t)) s1 H1) as H2.
   destruct (release_pending (p_waiting (get_tok s1 t)) s1) as [rest s2]. cbn [snd] in H2.
@@ -855,7 +856,7 @@ Proof.
               | _ => false end).
   intros delayed.
   assert (H2 : G ex m0 (if delayed then spawn (TDelayed rid (k_token ck) (k_owner ck)) s1
-                        else if g_pool cfg && negb (k_token ck =? 0) && k_owner ck then pool_cancel (k_token ck) s1 else s1)).
+                        else if g_pool cfg && negb (k_token ck =? 0) && k_owner ck then pool_cancel (k_token ck) rid s1 else s1)).
   { destruct delayed; [eapply G_fr; [apply fr_spawn|exact H1]|].
     destruct (g_pool cfg && negb (k_token ck =? 0) && k_owner ck); [apply G_pool_cancel|]; exact H1. }
   match goal with |- context [rx_drop ck ?s2] => pose proof (G_rx_drop ex m0 ck s2 H2) as H3; destruct (rx_drop ck s2) as [ck' s3] end.
@@ -907,14 +908,15 @@ Proof.
   { apply G_add_req; [exact H2|rewrite rv_len_cur, L2; exact Hlt|].
     intros ck E. inversion E; subst. split; cbn [new_ck k_conn k_slot]; [|discriminate].
     intros c' Ec. inversion Ec; subst. eapply G_Acq_open; eauto. }
-  set (s3 := upd_tok t (fun q => set_waiting (p_waiting q ++ [(List.length (reqs s), p_marker (get_tok s2 t))]) q) s2).
+  set (pending := match p_marker (get_tok s2 t) with Some _ => true | None => false end).
+  set (s3 := upd_tok t (fun q => set_waiting (p_waiting q ++ [(List.length (reqs s), pending)]) q) s2).
   assert (F3 : fr s2 s3) by apply fr_upd_tok.
   assert (H3 : G ex m0 s3) by (eapply G_fr; eauto).
   assert (L3 : reqs s3 = reqs s) by (destruct F3 as (_ & _ & ->); exact L2).
-  destruct (p_marker (get_tok s2 t)).
+  destruct pending.
   { apply G_add_req; [exact H3|rewrite rv_len_cur, L3; exact Hlt|].
     intros ck E. inversion E; subst. apply CkOK_new. }
-  set (s4 := if match p with H1 => false | H2 => true end then upd_tok t (set_marker true) s3 else s3).
+  set (s4 := if match p with H1 => false | H2 => true end then upd_tok t (set_marker (Some (List.length (reqs s)))) s3 else s3).
   assert (F4 : fr s3 s4) by (subst s4; destruct p; [apply fr_refl|apply fr_upd_tok]).
   assert (H4 : G ex m0 s4) by (eapply G_fr; eauto).
   assert (L4 : reqs s4 = reqs s) by (destruct F4 as (_ & _ & ->); exact L3).
